@@ -38,6 +38,10 @@ fn main() {
 enum Mv {
     I(i64),
     F(f64),
+    /// non-numeric property values (store / planner level only)
+    B(bool),
+    /// the string 't<k>'
+    T(u8),
 }
 
 impl Mv {
@@ -45,18 +49,24 @@ impl Mv {
         match self {
             Mv::I(v) => *v as i128 * 8,
             Mv::F(f) => (*f * 8.0) as i128,
+            Mv::B(b) => *b as i128 * 8,
+            Mv::T(_) => 0,
         }
     }
     fn rollup(&self) -> RollupValue {
         match self {
             Mv::I(v) => RollupValue::Int(*v as i128),
             Mv::F(f) => RollupValue::Float(*f),
+            Mv::B(b) => RollupValue::Int(*b as i128),
+            Mv::T(_) => RollupValue::Null,
         }
     }
     fn literal(&self) -> String {
         match self {
             Mv::I(v) => format!("{v}"),
             Mv::F(f) => format!("{f:?}"),
+            Mv::B(b) => format!("{b}"),
+            Mv::T(k) => format!("'t{k}'"),
         }
     }
     fn is_float(&self) -> bool {
@@ -66,6 +76,27 @@ impl Mv {
         match self {
             Mv::I(v) => *v as f64,
             Mv::F(f) => *f,
+            Mv::B(b) => *b as i64 as f64,
+            Mv::T(_) => 0.0,
+        }
+    }
+    fn numeric(&self) -> bool {
+        matches!(self, Mv::I(_) | Mv::F(_))
+    }
+    /// the value as a numeric measure: what an aggregation over numbers sees
+    fn strict_num(self) -> Option<Mv> {
+        if self.numeric() {
+            Some(self)
+        } else {
+            None
+        }
+    }
+    /// what the index stores for it (manager::to_rollup_value); booleans become 0/1 only
+    /// under KF-C28-6
+    fn index_norm(self, kf: &Kf) -> Option<Mv> {
+        match self {
+            Mv::B(b) if kf.nonnumeric => Some(Mv::I(b as i64)),
+            other => other.strict_num(),
         }
     }
 }
@@ -256,6 +287,9 @@ struct Kf {
     measure_label_update: bool,
     /// KF-C28-4: roll-up / descendant-scan rewrite ignores a reverse-declared orientation
     reverse_rewrite: bool,
+    /// KF-C28-6: non-numeric measure values (booleans as 0/1 in the index; min/max rewrite
+    /// drops values that Cypher min/max would order)
+    nonnumeric: bool,
 }
 
 // =======================================================================================
@@ -1000,6 +1034,8 @@ struct StoreCase {
 struct MNode {
     a: bool,
     m: Option<Mv>,
+    /// carries the unrelated property z = 1
+    z: bool,
     alive: bool,
 }
 
@@ -1027,9 +1063,9 @@ struct SModel {
 }
 
 impl SModel {
-    fn new(c: &StoreCase) -> SModel {
+    fn new(c: &StoreCase, kf: &Kf) -> SModel {
         let mut m = SModel {
-            nodes: c.nodes.iter().map(|n| MNode { a: n.a, m: n.m, alive: true }).collect(),
+            nodes: c.nodes.iter().map(|n| MNode { a: n.a, m: n.m, z: false, alive: true }).collect(),
             cover: BTreeMap::new(),
             facts: c.facts.clone(),
             reverse: c.reverse,
@@ -1045,7 +1081,7 @@ impl SModel {
         for &e in &c.edges {
             *m.cover.entry(e).or_insert(0) += 1;
         }
-        m.reset_view();
+        m.reset_view(kf);
         m
     }
     fn oracle(&self) -> Oracle {
@@ -1065,11 +1101,22 @@ impl SModel {
         if self.measure_label && !self.nodes[i].a {
             None
         } else {
-            self.nodes[i].m
+            self.nodes[i].m.and_then(|v| v.strict_num())
         }
     }
-    fn reset_view(&mut self) {
-        self.view = (0..self.nodes.len()).map(|i| self.declared(i)).collect();
+    /// what a (re)build stores for node i under the enabled known findings
+    fn held(&self, i: usize, kf: &Kf) -> Option<Mv> {
+        if self.measure_label && !self.nodes[i].a {
+            None
+        } else {
+            self.nodes[i].m.and_then(|v| v.index_norm(kf))
+        }
+    }
+    fn has_nonnumeric(&self) -> bool {
+        self.nodes.iter().any(|n| n.m.map(|v| !v.numeric()).unwrap_or(false))
+    }
+    fn reset_view(&mut self, kf: &Kf) {
+        self.view = (0..self.nodes.len()).map(|i| self.held(i, kf)).collect();
         self.div_remove = false;
         self.div_label_update = false;
         self.div_fen = false;
@@ -1128,9 +1175,10 @@ impl SModel {
                 }
                 self.nodes[*node].m = *val;
                 // KF-C28-5: the manager applies the write without looking at the declared label
-                let nv = if kf.measure_label_update { *val } else { self.declared(*node) };
+                let eligible = !self.measure_label || self.nodes[*node].a || kf.measure_label_update;
+                let nv = if eligible { val.and_then(|v| v.index_norm(kf)) } else { None };
                 self.index_write(*node, nv);
-                if self.view[*node] != self.declared(*node) {
+                if self.measure_label && !self.nodes[*node].a && self.view[*node] != self.declared(*node) {
                     self.div_label_update = true;
                 }
                 let lit = val.map(|v| v.literal()).unwrap_or_else(|| "null".into());
@@ -1168,13 +1216,14 @@ impl SModel {
             }
             SOp::Rebuild => {
                 self.dirty = false;
-                self.reset_view();
+                self.reset_view(kf);
                 Some((vec![], vec!["REBUILD HIERARCHY INDEX h".to_string()]))
             }
             SOp::SetOther { node } => {
                 if !self.alive(*node) {
                     return None;
                 }
+                self.nodes[*node].z = true;
                 Some((vec![format!("MATCH {} SET n.z = 1", self.node_pat("n", *node))], vec![]))
             }
             SOp::OtherEdge { a, b } => {
@@ -1185,7 +1234,7 @@ impl SModel {
             }
             SOp::AddNode { a, m } => {
                 let uid = self.nodes.len();
-                self.nodes.push(MNode { a: *a, m: *m, alive: true });
+                self.nodes.push(MNode { a: *a, m: *m, z: false, alive: true });
                 self.view.push(None); // not part of the built poset
                 if let Some(f) = self.fen.as_mut() {
                     f.push(0);
@@ -1384,37 +1433,93 @@ fn planner_queries(m: &SModel, orc: &Oracle, k: usize, salt: usize, kf: &Kf) -> 
     let inp = m.in_poset();
     let root_alive = m.alive(k);
     let pin = format!("(r:N {{uid: {k}}})");
-    // nodes d with a stored-direction path d -[:T*0..]-> r
+    // For a reverse-declared hierarchy (relationships stored parent -> child) the natural
+    // spelling walks the stored direction away from the pinned node; the forward spelling
+    // (nodes that reach r = its hierarchy ancestors) is kept as a minority.
+    let natural = m.reverse && salt % 4 != 3;
+    // the nodes the pattern binds d to
     let fwd: Vec<usize> = if !root_alive {
         vec![]
-    } else if m.reverse {
+    } else if m.reverse && !natural {
         (0..orc.n).filter(|&d| orc.sub(k, d)).collect()
     } else {
         orc.desc[k].clone()
     };
     // hierarchy descendants of k as the index sees them
     let hdesc: Vec<usize> = if root_alive && inp[k] { orc.desc[k].clone() } else { vec![] };
-    let pat = if salt % 2 == 0 { format!("(d)-[:T*0..]->{pin}") } else { format!("{pin}<-[:T*0..]-(d)") };
-    let true_m = |z: usize| m.nodes[z].m.map(|v| v.scaled());
+    let pat = if natural {
+        if salt % 2 == 0 { format!("{pin}-[:T*0..]->(d)") } else { format!("(d)<-[:T*0..]-{pin}") }
+    } else if salt % 2 == 0 {
+        format!("(d)-[:T*0..]->{pin}")
+    } else {
+        format!("{pin}<-[:T*0..]-(d)")
+    };
+    // query semantics: sum / avg see numbers only; min / max order every non-null value
+    let true_m = |z: usize| m.nodes[z].m.and_then(|v| v.strict_num()).map(|v| v.scaled());
+    let fwd_nonnum = fwd.iter().any(|&z| m.nodes[z].m.map(|v| !v.numeric()).unwrap_or(false));
+    let fwd_missing = fwd.iter().any(|&z| m.nodes[z].m.is_none());
     // KF-C28-4: the rewrite answers with hierarchy descendants although the stored direction is reversed
-    let rev_quirk = kf.reverse_rewrite && m.reverse && root_alive && inp[k];
-    let idx_set: &Vec<usize> = if rev_quirk || !m.reverse { &hdesc } else { &fwd };
+    let rev_quirk = kf.reverse_rewrite && m.reverse && !natural && root_alive && inp[k];
+    let idx_set: &Vec<usize> = &hdesc;
     for (i, op) in ALL_OPS.iter().enumerate() {
         let alias = if (salt + i) % 3 == 0 { " AS v" } else { "" };
         let expr = if *op == Op::Count { "count(d)".to_string() } else { format!("{}(d.m)", op.name()) };
-        let model = if root_alive { Some(vec![num_row(fold(&fwd, &true_m, *op))]) } else { None };
+        let unmodelled = fwd_nonnum && matches!(op, Op::Min | Op::Max);
+        let model = if root_alive && !unmodelled { Some(vec![num_row(fold(&fwd, &true_m, *op))]) } else { None };
         let quirk = if root_alive && inp[k] { Some(vec![num_row(fold(idx_set, &|z| m.view_val(z, *op, kf), *op))]) } else { None };
         out.push(PQ { kind: "rollup", a: format!("MATCH {pat} RETURN {expr}{alias}"), b: None, model, quirk, needs_rewrite: false, no_twin: false });
+    }
+    // ---- aggregate forms the index must NOT answer structurally: property forms of count,
+    // DISTINCT, avg, other properties, several items; and patterns other than `*0..`
+    {
+        let tagv = if fwd_nonnum { "with_nonnumeric_values" } else if fwd_missing { "with_missing_values" } else { "all_values_present" };
+        let cnt_m = fwd.iter().filter(|&&z| m.nodes[z].m.is_some()).count() as i128 * 8;
+        let cnt_z = fwd.iter().filter(|&&z| m.nodes[z].z).count() as i128 * 8;
+        let sum_uid: i128 = fwd.iter().map(|&z| z as i128 * 8).sum();
+        let one = |v: i128| if root_alive { Some(vec![num_row(Some(v))]) } else { None };
+        // (kind, RETURN expression, brute force)
+        let mut forms: Vec<(&'static str, String, Option<Vec<String>>)> = vec![
+            ("count_of_property", "count(d.m)".to_string(), one(cnt_m)),
+            ("count_star", "count(*)".to_string(), one(fwd.len() as i128 * 8)),
+        ];
+        let rotating: Vec<(&'static str, String, Option<Vec<String>>)> = vec![
+            ("count_distinct_of_property", "count(DISTINCT d.m)".to_string(), None),
+            ("avg_of_property", "avg(d.m)".to_string(), None),
+            ("sum_distinct_of_property", "sum(DISTINCT d.m)".to_string(), None),
+            ("count_of_other_property", "count(d.z)".to_string(), one(cnt_z)),
+            ("sum_of_other_property", "sum(d.uid)".to_string(), one(sum_uid)),
+            ("max_of_other_property", "max(d.uid) AS top".to_string(), None),
+            ("count_distinct_entity", "count(DISTINCT d)".to_string(), one(fwd.len() as i128 * 8)),
+            ("two_aggregates", "count(d) AS c, sum(d.m) AS s".to_string(), None),
+            ("count_of_property_aliased", "count(d.m) AS c".to_string(), one(cnt_m)),
+        ];
+        for j in 0..3 {
+            forms.push(rotating[(salt + j * 4) % rotating.len()].clone());
+        }
+        for (kind, expr, model) in forms {
+            out.push(PQ { kind: leak(format!("{kind}:{tagv}")), a: format!("MATCH {pat} RETURN {expr}"), b: None, model, quirk: None, needs_rewrite: false, no_twin: false });
+        }
+        // other pattern shapes, with a rotating aggregate (entity and property forms)
+        let pats: [(&'static str, String); 7] = [
+            ("star_1_unbounded", format!("(d)-[:T*1..]->{pin}")),
+            ("star_default", format!("{pin}<-[:T*]-(d)")),
+            ("star_0_to_2", format!("(d)-[:T*0..2]->{pin}")),
+            ("star_0_to_1", format!("{pin}<-[:T*0..1]-(d)")),
+            ("opposite_direction", format!("(d)<-[:T*0..]-{pin}")),
+            ("pin_in_where", "(d)-[:T*0..]->(r:N) WHERE r.uid = ".to_string() + &k.to_string()),
+            ("pin_without_label", format!("(d)-[:T*0..]->(r {{uid: {k}}})")),
+        ];
+        let aggs = ["count(d)", "sum(d.m)", "count(d.m)", "min(d.m)", "max(d.m)", "count(*)", "d"];
+        for j in 0..2 {
+            let (pk, ptxt) = &pats[(salt + j * 3) % pats.len()];
+            let agg = aggs[(salt / 2 + j * 5) % aggs.len()];
+            out.push(PQ { kind: leak(format!("shape:{pk}")), a: format!("MATCH {ptxt} RETURN {agg}"), b: None, model: None, quirk: None, needs_rewrite: false, no_twin: false });
+        }
     }
     {
         let model = if root_alive { Some(sorted(fwd.iter().map(|d| format!("N{d}")).collect())) } else { None };
         let quirk = if rev_quirk { Some(sorted(hdesc.iter().map(|d| format!("N{d}")).collect())) } else { None };
         out.push(PQ { kind: "descendant_scan", a: format!("MATCH {pat} RETURN d"), b: None, model, quirk, needs_rewrite: false, no_twin: false });
-    }
-    if m.reverse {
-        // the natural spelling for a reversed hierarchy
-        let model = if root_alive { Some(vec![num_row(fold(&orc.desc[k], &true_m, Op::Sum))]) } else { None };
-        out.push(PQ { kind: "rollup_natural_reverse", a: format!("MATCH {pin}-[:T*0..]->(d) RETURN sum(d.m)"), b: None, model, quirk: None, needs_rewrite: false, no_twin: false });
     }
     // order test
     let lab = if salt % 3 == 1 { "A" } else { "N" };
@@ -1493,6 +1598,19 @@ fn planner_queries(m: &SModel, orc: &Oracle, k: usize, salt: usize, kf: &Kf) -> 
     out
 }
 
+/// class names built at run time (a few dozen distinct strings)
+fn leak(s: String) -> &'static str {
+    use std::sync::Mutex;
+    static POOL: Mutex<Vec<&'static str>> = Mutex::new(Vec::new());
+    let mut p = POOL.lock().unwrap();
+    if let Some(x) = p.iter().find(|x| **x == s) {
+        return x;
+    }
+    let l: &'static str = Box::leak(s.into_boxed_str());
+    p.push(l);
+    l
+}
+
 fn sorted(mut v: Vec<String>) -> Vec<String> {
     v.sort();
     v
@@ -1528,6 +1646,9 @@ fn explain(m: &SModel, kf: &Kf, query: bool) -> Option<&'static str> {
     }
     if m.div_fen && kf.fenwick_trunc {
         return Some("KF-C28-2");
+    }
+    if m.has_nonnumeric() && kf.nonnumeric {
+        return Some("KF-C28-6");
     }
     None
 }
@@ -1767,7 +1888,7 @@ fn check_store(c: &StoreCase, kf: &Kf) -> Result<Info, String> {
     }
     t.write(&index_ddl(c), false)?;
     t.refresh_names();
-    let mut m = SModel::new(c);
+    let mut m = SModel::new(c, kf);
     let multi = m.oracle().multi_parent();
     info.class(if multi { "store:multi_parent" } else { "store:tree_or_forest" });
     {
@@ -1839,7 +1960,51 @@ fn gen_store_case(kind: u8, medium: bool, sels: &[u16]) -> StoreCase {
     let isolated = s.below(3);
     let total = n + isolated;
     let mixed = s.chance(1, 2);
-    let nodes: Vec<SNode> = (0..total).map(|_| SNode { a: s.chance(1, 2), m: if s.chance(1, 4) { None } else { Some(gen_store_mv(&mut s, mixed)) } }).collect();
+    let mut nodes: Vec<SNode> = (0..total).map(|_| SNode { a: s.chance(1, 2), m: if s.chance(1, 4) { None } else { Some(gen_store_mv(&mut s, mixed)) } }).collect();
+    // where the aggregated property is missing: scattered / on the roots / on the leaves /
+    // on a whole subtree / almost everywhere
+    let shape_orc = Oracle::new(total, &edges).expect("generated relation is acyclic");
+    let absent_mode = ["scattered", "scattered", "roots_absent", "leaves_absent", "subtree_absent", "mostly_absent"][s.below(6)];
+    match absent_mode {
+        "roots_absent" => {
+            for i in 0..total {
+                if shape_orc.parents[i].is_empty() {
+                    nodes[i].m = None;
+                }
+            }
+        }
+        "leaves_absent" => {
+            for i in 0..total {
+                if shape_orc.desc[i].len() == 1 {
+                    nodes[i].m = None;
+                }
+            }
+        }
+        "subtree_absent" => {
+            let top = s.below(total);
+            for &d in &shape_orc.desc[top] {
+                nodes[d].m = None;
+            }
+        }
+        "mostly_absent" => {
+            let keep = s.below(total);
+            for i in 0..total {
+                if i != keep {
+                    nodes[i].m = None;
+                }
+            }
+        }
+        _ => {}
+    }
+    // non-numeric values of the aggregated property
+    let nonnum = s.chance(1, 5);
+    if nonnum {
+        for i in 0..total {
+            if s.chance(1, 4) {
+                nodes[i].m = Some(if s.chance(1, 2) { Mv::B(s.chance(1, 2)) } else { Mv::T(s.below(3) as u8) });
+            }
+        }
+    }
     let nf = s.below(5);
     let facts: Vec<SFact> = (0..nf)
         .map(|_| SFact { p: if s.chance(1, 5) { None } else { Some(s.below(21) as i64 - 5) }, about: (0..1 + s.below(3)).map(|_| s.below(total)).collect() })
@@ -1857,8 +2022,8 @@ fn gen_store_case(kind: u8, medium: bool, sels: &[u16]) -> StoreCase {
         o
     };
     let nroots = if medium { 1 } else { 2 };
-    let mut case = StoreCase { tag: format!("{shape}{}", if medium { "/medium" } else { "/small" }), nodes, edges, facts, about_in, reverse, measure_label, aggregates, roots0: vec![], steps: vec![] };
-    let mut model = SModel::new(&case);
+    let mut case = StoreCase { tag: format!("{shape}{}|{absent_mode}|{}", if medium { "/medium" } else { "/small" }, if nonnum { "nonnumeric" } else { "numeric" }), nodes, edges, facts, about_in, reverse, measure_label, aggregates, roots0: vec![], steps: vec![] };
+    let mut model = SModel::new(&case, &Kf::default());
     let kf = Kf::default();
     let pick_root = |s: &mut Sel, model: &SModel, near: Option<usize>| -> usize {
         // bias towards an ancestor of the touched node (its roll-up changes), else any node
@@ -1885,7 +2050,14 @@ fn gen_store_case(kind: u8, medium: bool, sels: &[u16]) -> StoreCase {
                 0..=31 => {
                     let node = s.below(cur);
                     let mx = mixed || s.chance(1, 4);
-                    SOp::SetM { node, val: if s.chance(1, 6) { None } else { Some(gen_store_mv(&mut s, mx)) } }
+                    let val = if s.chance(1, 6) {
+                        None
+                    } else if nonnum && s.chance(1, 4) {
+                        Some(if s.chance(1, 2) { Mv::B(s.chance(1, 2)) } else { Mv::T(s.below(3) as u8) })
+                    } else {
+                        Some(gen_store_mv(&mut s, mx))
+                    };
+                    SOp::SetM { node, val }
                 }
                 32..=39 => SOp::RemoveM { node: s.below(cur) },
                 40..=53 => SOp::AddEdge { c: s.below(cur), p: s.below(cur) },
@@ -2113,7 +2285,7 @@ fn absorb(ev: &mut Evidence, info: &Info, key: &str) {
     }
 }
 
-const KF_IDS: [&str; 5] = ["KF-C28-1", "KF-C28-2", "KF-C28-3", "KF-C28-4", "KF-C28-5"];
+const KF_IDS: [&str; 6] = ["KF-C28-1", "KF-C28-2", "KF-C28-3", "KF-C28-4", "KF-C28-5", "KF-C28-6"];
 
 fn set_kf(kf: &mut Kf, id: &str, on: bool) {
     match id {
@@ -2121,6 +2293,7 @@ fn set_kf(kf: &mut Kf, id: &str, on: bool) {
         "KF-C28-2" => kf.fenwick_trunc = on,
         "KF-C28-3" => kf.measure_label_rewrite = on,
         "KF-C28-5" => kf.measure_label_update = on,
+        "KF-C28-6" => kf.nonnumeric = on,
         "KF-C28-4" => kf.reverse_rewrite = on,
         _ => {}
     }
@@ -2256,7 +2429,9 @@ fn c28(args: &Args) {
         for (kind, medium, sels) in raws {
             let c = gen_store_case(kind, medium, &sels);
             ev.case();
-            ev.class(&format!("gen:store:{}", c.tag));
+            for (i, part) in c.tag.split('|').enumerate() {
+                ev.class(&format!("gen:store:{}{part}", ["", "missing:", "values:"].get(i).copied().unwrap_or("")));
+            }
             match catch(|| check_store(&c, &kf)) {
                 Ok(Ok(info)) => {
                     let key = serde_json::to_string(&c).unwrap();
